@@ -251,6 +251,9 @@ func runHash(t *core.Tape, info *core.RunInfo) *core.Violation {
 	if v := check("valid", pf, protoA, ver(), true); v != nil {
 		return v
 	}
+	if t.Bool("fault.adaptive", 150) {
+		return adaptiveForger(t, info, suite, sn, protoA)
+	}
 	switch t.Intn("fault", 7) {
 	case 0:
 		info.Fault("other-protocol-name")
@@ -992,3 +995,77 @@ func maxInt(a, b int) int {
 }
 
 func stackHere() string { return core.StackNow() }
+
+// adaptiveForger is a third-party prover that follows the Fiat-Shamir rule of the hash-based proofs
+// (challenge = suite.Read(XOF(protocol name) reseeded and fed with all commitment bytes)) but fixes
+// its LAST commitment after it has seen the challenge: it does not know the discrete logarithm of the
+// last statement point. In a sound scheme the changed commitment changes the challenge and the proof
+// is refused. (Seed C14j: long commitment strings were absorbed in whole 256-byte blocks only, so a
+// commitment in the unabsorbed tail could be chosen afterwards.) The statement is an And of k
+// representation statements P_i = x_i*B, k = 1..16, so that the commitment string passes several
+// block boundaries of the hash.
+func adaptiveForger(t *core.Tape, info *core.RunInfo, suite proof.Suite, sn, proto string) *core.Violation {
+	k := 1 + t.Intn("fault.adaptive", 16)
+	B := suite.Point().Base()
+	var reps []proof.Predicate
+	pval := map[string]kyber.Point{"B": B}
+	xs := make([]kyber.Scalar, k)
+	vs := make([]kyber.Scalar, k)
+	var commits bytes.Buffer
+	V := make([]kyber.Point, k)
+	for i := 0; i < k; i++ {
+		xs[i] = rscalar(suite, t, "fault.val")
+		vs[i] = rscalar(suite, t, "fault.val")
+		name := fmt.Sprintf("P%d", i)
+		pval[name] = suite.Point().Mul(xs[i], nil)
+		reps = append(reps, proof.Rep(name, fmt.Sprintf("x%d", i), "B"))
+		V[i] = suite.Point().Mul(vs[i], nil)
+	}
+	// the last statement point is somebody else's: the forger does not know its logarithm
+	pval[fmt.Sprintf("P%d", k-1)] = suite.Point().Mul(rscalar(suite, t, "fault.val"), nil)
+	var pred proof.Predicate = reps[0]
+	if k > 1 {
+		pred = proof.And(reps...)
+	}
+	challenge := func() kyber.Scalar {
+		commits.Reset()
+		for i := 0; i < k; i++ {
+			_ = suite.Write(&commits, V[i])
+		}
+		x := suite.XOF([]byte(proto))
+		x.Reseed()
+		_, _ = x.Write(commits.Bytes())
+		c := suite.Scalar()
+		_ = suite.Read(x, c)
+		return c
+	}
+	c := challenge() // with a placeholder as last commitment
+	r := rscalar(suite, t, "fault.val")
+	Y := pval[fmt.Sprintf("P%d", k-1)]
+	V[k-1] = suite.Point().Add(suite.Point().Mul(c, Y), suite.Point().Mul(r, nil)) // c*Y + r*B: fits c
+	var pf bytes.Buffer
+	for i := 0; i < k; i++ {
+		_ = suite.Write(&pf, V[i])
+	}
+	for i := 0; i < k; i++ {
+		ri := suite.Scalar().Sub(vs[i], suite.Scalar().Mul(c, xs[i]))
+		if i == k-1 {
+			ri = r
+		}
+		_ = suite.Write(&pf, ri)
+	}
+	info.Config["mode"], info.Config["suite"], info.Config["pred"] = "hash", sn, fmt.Sprintf("and-of-%d-reps", k)
+	info.ByzFired("commitment-chosen-after-the-challenge")
+	info.SigAdd("adaptive:%d:%s", k, sn)
+	var verr error
+	if pn := core.Guard(func() { verr = proof.HashVerify(suite, proto, pred.Verifier(suite, pval), pf.Bytes()) }); pn != nil {
+		return viol("totality", "hash/verify-panic/"+sn+"/adaptive-forger", "HashVerify panicked: %v | %s", pn, core.LastStack())
+	}
+	if verr == nil {
+		return viol("soundness", "hash/accepted/"+sn+"/commitment-chosen-after-the-challenge", "a proof of And of %d Reps whose last commitment was fixed after the challenge (prover without the last secret) is accepted", k)
+	}
+	// sanity of the forger itself: with the true challenge recomputed over the final commitments it
+	// must be the honest prover's proof format (an honest variant verifies)
+	info.Events++
+	return nil
+}
